@@ -243,8 +243,20 @@ impl<const N: usize, const CAP: usize> RecHash<N, CAP> {
     }
     /// true iff call k absorbed exactly `expect`
     pub fn pre_is(k: usize, expect: &[u8]) -> bool {
-        let (len, b) = Self::pre(k);
-        len == expect.len() && b[..expect.len()] == *expect
+        // word-wise comparison against the log (a byte-wise slice comparison would need an unwinding bound of CAP for memcmp)
+        let base = k * Self::STRIDE;
+        if REC_LOG[base].load(Ordering::Relaxed) as usize != expect.len() || expect.len() > CAP {
+            return false;
+        }
+        let mut padded = [0u8; CAP];
+        padded[..expect.len()].copy_from_slice(expect);
+        let mut ok = true;
+        let mut i = 0;
+        while i < CAP / 8 {
+            ok = ok && REC_LOG[base + 1 + i].load(Ordering::Relaxed) == w64(&padded, 8 * i);
+            i += 1;
+        }
+        ok
     }
 }
 impl<const N: usize, const CAP: usize> Update for RecHash<N, CAP> {
